@@ -25,7 +25,7 @@ func init() {
 		Binary: "vgen",
 		Level:  "exploration",
 		Rule: "E-enum over the whole finite domains, real functions executed: (inotify, translate) newEvent on all 2^12 combinations of the twelve inspected IN_* bits x 2^4 housekeeping bits (IN_ISDIR, IN_IGNORED, IN_UNMOUNT, IN_Q_OVERFLOW) x cookie {0,n}: result == reference table, f(a|b)==f(a)|f(b), housekeeping bits never change the operations; " +
-			"(inotify, request) all 2^9 operation subsets x {follow, no-follow} x {file, directory} through AddWith on real paths, the kernel's stored mask read back from /proc/self/fdinfo == reference (every requested operation observable, no unrelated flag; the empty set fails and leaves the set untouched); plus re-Add histories (2-5 AddWith calls for one path with PRNG operation sets - directory, file, symlink followed, symlink not followed, and a file replaced under its name between two calls: after every call the single kernel mark carries exactly the union of what was requested for the path), an alias-widening case (same directory added again through a symlink with more operations: the new one must be observable) and a behavioural pass: for each single operation a scripted set of real changes must produce only that operation and must produce it; " +
+			"(inotify, request) all 2^9 operation subsets x {follow, no-follow} x {file, directory} through AddWith on real paths, the kernel's stored mask read back from /proc/self/fdinfo == reference (every requested operation observable, no unrelated flag; the empty set fails and leaves the set untouched); plus re-Add histories (2-5 AddWith calls for one path with PRNG operation sets - directory, file, symlink followed, symlink not followed, a file replaced under its name between two calls, and one directory under several names: after every call the single kernel mark carries exactly the union of what was requested for the path), an alias-widening case (same directory added again through a symlink with more operations: the new one must be observable) and a behavioural pass: for each single operation a scripted set of real changes must produce only that operation and must produce it; " +
 			"(kqueue) the copied backend's newEvent on all 2^11 NOTE_* combinations (Write dropped with Remove, otherwise union-homomorphic), noteAllEvents == DELETE|WRITE|ATTRIB|RENAME, the fflags actually registered per knote class in the simulator, link spelling; " +
 			"(Windows) extracted newEvent on all 2^16 low masks of the sysFS* space (Chmod never), toWindowsFlags on all 2^12 masks, toFSnotifyFlags on every action 0..1023 and PRNG values; xSupports of kqueue/Windows/FEN/inotify over all 2^9 operation sets. distinct_nontrivial = distinct native masks / op sets evaluated with a non-empty result",
 		Assumptions: []string{"reference tables (harness/gen/tmpl/gchecks/c15.go) are written from the documentation of each native API", "Windows and FEN: only the extracted pure functions run (real Win32 constant values); their event loops do not exist on Linux", "kqueue registration is observed on the simulated kqueue"},
@@ -459,14 +459,15 @@ func c15InotifyReAdd(c *core.Ctx, rng *rand.Rand) {
 	os.MkdirAll(filepath.Join(dir, "d"), 0o755)
 	os.WriteFile(filepath.Join(dir, "f"), nil, 0o644)
 	os.Symlink(filepath.Join(dir, "f"), filepath.Join(dir, "lf"))
-	n := 400
+	os.Symlink(filepath.Join(dir, "d"), filepath.Join(dir, "ld"))
+	n := 480
 	if c.Tier == "thorough" {
 		n = 6000
 	}
 	nv := 0
 	for it := 0; it < n; it++ {
-		variant := it % 5 // 0 dir, 1 file, 2 link follow, 3 link no-follow, 4 rotation
-		target := []string{"d", "f", "lf", "lf", "f"}[variant]
+		variant := it % 6 // 0 dir, 1 file, 2 link follow, 3 link no-follow, 4 rotation, 5 the same file under several names
+		target := []string{"d", "f", "lf", "lf", "f", "d"}[variant]
 		p := filepath.Join(dir, target)
 		k := 2 + rng.Intn(4)
 		rotateAt := -1
@@ -503,8 +504,15 @@ func c15InotifyReAdd(c *core.Ctx, rng *rand.Rand) {
 			if variant == 3 {
 				opts = append(opts, real.VerifWithNoFollow())
 			}
-			hist = append(hist, "Add("+ops.String()+")")
-			if err := w.AddWith(p, opts...); err != nil {
+			pj := p
+			if variant == 5 { // the directory itself, a symlink to it, a spelling that cleans to it
+				sp := []string{"d", "ld", "d/../ld"}[rng.Intn(3)]
+				pj = filepath.Join(dir, sp)
+				hist = append(hist, "Add("+sp+", "+ops.String()+")")
+			} else {
+				hist = append(hist, "Add("+ops.String()+")")
+			}
+			if err := w.AddWith(pj, opts...); err != nil {
 				c.Violate("inotify-readd", fmt.Sprintf("%s: %v: %v", target, hist, err), nil)
 				bad = true
 				break
@@ -519,13 +527,19 @@ func c15InotifyReAdd(c *core.Ctx, rng *rand.Rand) {
 					for _, m := range ms {
 						got = append(got, maskStr(m))
 					}
-					c.Violate("inotify-readd", fmt.Sprintf("variant %d (%s) history %v: kernel marks %v; the operations requested for this path need exactly [%s]", variant, target, hist, got, maskStr(union)), map[string]interface{}{"history": hist})
+					sig := "inotify-readd"
+					if variant == 5 {
+						sig = "inotify-readd-alias"
+					}
+					c.Violate(sig, fmt.Sprintf("variant %d (%s) history %v: kernel marks %v; the operations requested for this file need exactly [%s]", variant, target, hist, got, maskStr(union)), map[string]interface{}{"history": hist})
 				}
 				bad = true
 			}
 		}
-		if err := w.Remove(p); err != nil && !bad {
-			c.Violate("inotify-readd", fmt.Sprintf("%v: Remove: %v", hist, err), nil)
+		for _, lp := range w.WatchList() {
+			if err := w.Remove(lp); err != nil && !bad {
+				c.Violate("inotify-readd", fmt.Sprintf("%v: Remove: %v", hist, err), nil)
+			}
 		}
 		if ms := allMasks(fd); len(ms) != 0 {
 			if !bad {
